@@ -261,7 +261,13 @@ def _expression(expr):
 
     if isinstance(expr, blackbirdParser.PowerLabelContext):
         a, b = expr.expression()
-        return np.power(_expression(a), _expression(b))
+        a = _expression(a)
+        b = _expression(b)
+
+        if isinstance(a, (int, np.integer)) and isinstance(b, (int, np.integer)) and b < 0:
+            a = float(a)
+
+        return np.power(a, b)
 
     if isinstance(expr, blackbirdParser.FunctionLabelContext):
         return _func(expr.function(), expr.expression())
